@@ -255,9 +255,10 @@ def shape_kind_ok(e: dict, g: str) -> bool:
     if k == "array":
         return head == "list" and shape_kind_ok(e["items"], inner)
     if k == "map":
-        return (head == "dict" and shape_kind_ok(e["values"], inner)) or g.startswith("ref:")
+        # a map is a map: dict[str, Any] keeps the structural kind the statement lists (the value kind is judged when typed)
+        return (head == "dict" and (inner == "any" or shape_kind_ok(e["values"], inner))) or g.startswith("ref:")
     if k == "inline_object":
-        return g.startswith("ref:")
+        return g.startswith("ref:") or head == "dict"     # an anonymous object: a model of its own, or a plain mapping
     return False
 
 
@@ -296,9 +297,9 @@ def check_shapes(ctx: Ctx, chunk: list, n: int) -> None:
             rec.violation("shape:wire_keys_differ", feats, case, f"{ex}: {name} load map {load}")
             continue
         f = {x["name"]: x for x in m["fields"]}[load[key]]
-        if not f["has_default"]:
-            rec.violation("shape:requiredness_differs", feats, case, f"{ex}: optional property without a default")
         e = d.sexp[name]["props"][key]
+        if f["has_default"] == bool(e.get("required")):
+            rec.violation("shape:requiredness_differs", feats, case, f"{ex}: required={e.get('required')} has_default={f['has_default']}")
         if not shape_kind_ok(e, f["kind"]):
             rec.violation("shape:structural_kind_differs", feats, case, f"{ex}: annotation kind {f['kind']} ({f['ann']})")
             rec.seen("shapes_with_wrong_kind", ex)
